@@ -427,3 +427,17 @@ func VerifC41_hello_resume_scsv() {
 	}
 	vrt.Assert(!(scsv && clientVers < hi), "C41/hello-fallback-scsv-refused")
 }
+
+// VerifC41_hello_suite_default: Config.CipherSuites left nil (all 16 implemented suites enabled, the
+// shipped default), every grade, the three preference modes, curves present/absent, NS symbolic suites.
+func VerifC41_hello_suite_default() {
+	sc := scenarioC41{suites: nil}
+	sc.prefer = vrt.Choose("prefer", 3)
+	if g := vrt.Choose("rule", 5); g > 0 {
+		sc.rule, sc.grade = true, gradesC41[g-1]
+		sc.chacha = vrt.Bool("chacha")
+	}
+	sc.curves = flagC41()
+	sc.ns = vrt.Range("nsuites", 1, vrt.Param("NS", 1))
+	runHelloC41(sc)
+}
